@@ -18,8 +18,11 @@ RULE = ("(a) literals: every unit suffix of the documented table (k kb kib m mb 
         "logarithmic grid 0..2^50 with +-1 neighbours, through format_size(N, spec) and through fsize with "
         "default_file_size_format in the configuration file: the 15 rows of the documentation table verbatim; unit "
         "label, spacing and number of decimals follow the grammar; rendering is monotone in the size; number x unit "
-        "multiplier is within half a unit of the last displayed digit of the true size. Non-trivial: (a) every "
-        "enumerated (literal, operator); (b) size >= 1000 and a specifier with >= 2 components.")
+        "multiplier is within half a unit of the last displayed digit of the true size; (c) context independence: 2-4 "
+        "different specifiers (relatives of each other: bare unit, bare flags, other precision, other spacing, default) "
+        "in one invocation - as columns of one row and as rows over real sparse files, with fsize and a configured default - "
+        "every cell equals what the same call renders in an invocation using that specifier only. Non-trivial: (a) every "
+        "enumerated (literal, operator); (b) size >= 1000 and a specifier with >= 2 components; (c) >= 2 distinct specifiers.")
 ASSUMPTIONS = [
     "exact last-digit rounding mode, units p/e and specifiers outside the grammar are not asserted",
     "`c` is combined with binary-named units only and `d` with decimal-named units only (the documented combinations)",
@@ -78,7 +81,7 @@ UNITS_DEC = ["kb", "mb", "gb", "tb"]
 
 
 @st.composite
-def strategy_(draw, tier):
+def spec_parts(draw):
     prec = draw(st.sampled_from([None, 0, 1, 2, 3]))
     space = draw(st.booleans())
     base = draw(st.sampled_from(["", "", "c", "d"]))
@@ -93,10 +96,53 @@ def strategy_(draw, tier):
     if draw(st.booleans()):
         flags = flags[::-1]
     upper = draw(st.sampled_from([False, False, True]))
+    return {"prec": prec, "space": space, "flags": flags, "unit": unit, "upper": upper}
+
+
+FILE_GRID = [g for g in GRID if g <= 2 ** 42]
+
+
+@st.composite
+def mixed_(draw):
+    """Several different specifiers in ONE invocation (columns of one row, and rows over real files): every cell
+    must equal what the same call renders in an invocation that uses that specifier only."""
+    first = draw(spec_parts())
+    specs = [first]
+    # relatives of the first specifier: the bare unit, the bare flags, another precision - the shapes a shared
+    # per-process cache or a parsed-specifier memo would confuse
+    rel = draw(st.lists(st.sampled_from(["bare-unit", "bare-flags", "other-prec", "toggle-space", "fresh", "fresh", "default"]),
+                        min_size=1, max_size=3))
+    for r in rel:
+        if r == "bare-unit":
+            specs.append(dict(first, prec=None, space=False, flags=""))
+        elif r == "bare-flags":
+            specs.append(dict(first, prec=None, space=False, unit=""))
+        elif r == "other-prec":
+            specs.append(dict(first, prec=draw(st.sampled_from([p for p in [None, 0, 1, 2, 3] if p != first["prec"]]))))
+        elif r == "toggle-space":
+            specs.append(dict(first, space=not first["space"]))
+        elif r == "default":
+            specs.append({"prec": None, "space": False, "flags": "", "unit": "", "upper": False})
+        else:
+            specs.append(draw(spec_parts()))
+    order = draw(st.permutations(range(len(specs))))
+    specs = [specs[i] for i in order]
+    sizes = draw(st.lists(st.sampled_from(FILE_GRID), min_size=2, max_size=5, unique=True))
+    cfg_default = draw(st.sampled_from([None, None, 0, 1]))
+    if cfg_default is not None:
+        cfg_default = min(cfg_default, len(specs) - 1)
+    return {"kind": "mixed", "specs": specs, "sizes": sizes, "cfg_default": cfg_default,
+            "fsize_pos": draw(st.sampled_from(["first", "last", "none"])), "ordered": draw(st.booleans())}
+
+
+@st.composite
+def strategy_(draw, tier):
+    if draw(st.sampled_from(range(3))) == 0:
+        return draw(mixed_())
+    parts = draw(spec_parts())
     sizes = draw(st.lists(st.sampled_from(GRID), min_size=8, max_size=20, unique=True))
     extra = draw(st.lists(st.integers(0, 2 ** 50), min_size=0, max_size=4))
-    return {"kind": "format", "prec": prec, "space": space, "flags": flags, "unit": unit, "upper": upper,
-            "sizes": sorted(set(sizes + extra))}
+    return dict(parts, kind="format", sizes=sorted(set(sizes + extra)))
 
 
 def strategy(tier):
@@ -218,6 +264,79 @@ def check_format(out, c, base):
     out.sample = {"spec": spec, "sizes": sizes[:5], "cells": cells[:5]}
 
 
+def check_mixed(out, c, base):
+    """Context independence of the rendering: reference = one invocation per specifier (that specifier only)."""
+    specs = [spec_text(x) for x in c["specs"]]
+    sizes = c["sizes"]
+    ref = {}
+    for sp in sorted(set(specs)):
+        cells, _ = run_cells(out, base, [fmt_call(s, sp) for s in sizes])
+        if cells is None:
+            return
+        for s, cell in zip(sizes, cells):
+            ref[(sp, s)] = cell
+    # (1) literal sizes, all specifiers interleaved in one row
+    exprs, keys = [], []
+    for s in sizes:
+        for sp in specs:
+            exprs.append(fmt_call(s, sp))
+            keys.append((sp, s))
+    cells, q = run_cells(out, base, exprs)
+    if cells is None:
+        return
+    for k, cell in zip(keys, cells):
+        if cell != ref[k]:
+            out.add("C14/context/columns", query=q[:400], spec=k[0], size=k[1], cell=cell, alone=ref[k])
+            break
+    # (2) rows over real files, with fsize (configuration default) next to the explicit specifiers
+    os.remove(os.path.join(base, "one"))
+    for i, s in enumerate(sizes):
+        with open(os.path.join(base, "f%d" % i), "wb") as f:
+            f.truncate(s)
+    cfg = None
+    dflt = None
+    if c["cfg_default"] is not None:
+        dflt = specs[c["cfg_default"]]
+        cfg = 'default_file_size_format = "%s"\n' % dflt
+    if dflt not in specs:
+        cells, _ = run_cells(out, base, [fmt_call(s, dflt) for s in sizes])
+        if cells is None:
+            return
+        for s, cell in zip(sizes, cells):
+            ref[(dflt, s)] = cell
+    cols = ["size"] + ["format_size(size, '%s')" % sp if sp else "format_size(size)" for sp in specs]
+    colspec = [None] + specs
+    if c["fsize_pos"] == "first":
+        cols.insert(1, "fsize")
+        colspec.insert(1, dflt)
+    elif c["fsize_pos"] == "last":
+        cols.append("fsize")
+        colspec.append(dflt)
+    q = "select " + ", ".join(cols) + " from ." + (" order by name" if c["ordered"] else "") + " into list"
+    res = runner.run([q], cwd=base, cfg=cfg)
+    out.evals += 1
+    if res.wall_timeout:
+        out.inconclusive = True
+        return
+    if res.status != 0 or res.err:
+        out.add("C14/context/run-failed", query=q[:400], status=res.status, stderr=res.err[:200])
+        return
+    rows = runner.rows(res.out, len(cols))
+    if len(rows) != len(sizes):
+        out.add("C14/context/row-count", query=q[:400], rows=len(rows), files=len(sizes))
+        return
+    for r in rows:
+        sz = int(r[0])
+        for sp, cell in list(zip(colspec, r))[1:]:
+            if cell != ref[(sp, sz)]:
+                out.add("C14/context/rows", query=q[:400], config=cfg, spec=sp, size=sz, cell=cell, alone=ref[(sp, sz)])
+                return
+    out.nt_keys = ["mixed|%s|%s" % ("~".join(str(x) for x in specs), c["cfg_default"])] if len(set(specs)) >= 2 else []
+    out.classes += ["mixed", "specs=%d" % len(set(specs))] + (["mixed-config-default"] if cfg else []) + \
+                   (["mixed-fsize"] if c["fsize_pos"] != "none" else [])
+    out.sample = {"query": q[:200], "config": cfg, "rows": rows[:2]}
+
+
 def check_literal(out, c, base):
     mult = MULT[c["unit"]]
     n = int(math.floor(float(c["num"]) * mult + 1e-9))
@@ -266,6 +385,8 @@ def check(case):
             check_literal(out, case, base)
         elif k == "format":
             check_format(out, case, base)
+        elif k == "mixed":
+            check_mixed(out, case, base)
         elif k == "doctable":
             cells, q = run_cells(out, base, [fmt_call(1678123, s) for s, _ in DOC_TABLE])
             if cells:
